@@ -22,6 +22,7 @@ import (
 
 	"go.uber.org/atomic"
 
+	"github.com/lindb/lindb/internal/verifhook"
 	"github.com/lindb/lindb/kv/table"
 )
 
@@ -126,6 +127,7 @@ func (s *snapshot) Close() {
 	// atomic set closed status, make sure only release once
 	if s.closed.CompareAndSwap(false, true) {
 		s.version.Release()
+		verifhook.Yield("snapshot.close.afterRelease")
 		s.cache.ReleaseReaders(s.readers)
 	}
 }
